@@ -16,7 +16,8 @@ pub fn print_colorspectrum(config: &Config) -> Result<()> {
     let mut canvas = Canvas::new(
         width + 2 * config.padding,
         width + 2 * config.padding,
-        Brush::from_environment(Stream::Stderr)?,
+        // (see `DistinctCommand`: the variable is only a hint for STDERR here)
+        Brush::from_environment(Stream::Stderr).unwrap_or_default(),
     );
     canvas.draw_rect(
         config.padding,
